@@ -54,6 +54,30 @@ Qed.
 Theorem full_iff_no_unsafe_site : all_sites_classified_full <-> unsafe_sites sites = [].
 Proof. exact (full_iff_gen sites). Qed.
 
+(* the full claim holds for the current source (re-checked by vm_compute on every run) *)
+Lemma all_sites_strict_bool : forallb site_ok_strict sites = true.
+Proof. vm_compute. reflexivity. Qed.
+
+Lemma site_ok_strict_spec : forall s, site_ok_strict s = true ->
+  classification s <> Unclassified /\ order_safe (classification s) = true.
+Proof.
+  intros s H. unfold site_ok_strict in H. apply andb_true_iff in H. destruct H as [H1 H2]. split; [|exact H2].
+  intro E. rewrite E in H1. discriminate H1.
+Qed.
+
+Theorem all_sites_classified : all_sites_classified_full.
+Proof.
+  intros s Hs. apply site_ok_strict_spec. exact (proj1 (forallb_forall site_ok_strict sites) all_sites_strict_bool s Hs).
+Qed.
+
+Theorem sites_deterministic : forall s, In s sites ->
+  forall p l l', step_commutes p -> NoDup (map fst l) -> NoDup (map (span p) l) -> Permutation l l' ->
+  obs_eq (consumer p (classification s) l) (consumer p (classification s) l').
+Proof.
+  intros s Hs p l l' Hc HN HS HP. destruct (all_sites_classified s Hs) as [_ H].
+  apply consumer_perm_invariant; assumption.
+Qed.
+
 (* every inventoried site outside the recorded defect classes is invariant under permutation of its iteration *)
 Theorem sites_deterministic_partial : forall s, In s sites -> ~ In (tag_of s) open_defect_tags ->
   forall p l l', step_commutes p -> NoDup (map fst l) -> NoDup (map (span p) l) -> Permutation l l' ->
@@ -72,11 +96,6 @@ Proof.
   intros L s Hs. unfold unsafe_sites in Hs. apply filter_In in Hs. destruct Hs as [_ H]. apply negb_true_iff in H.
   apply unsafe_shapes_refuted; exact H.
 Qed.
-
-Theorem unsafe_sites_refuted : forall s, In s (unsafe_sites sites) ->
-  exists p l l', step_commutes p /\ NoDup (map fst l) /\ NoDup (map (span p) l) /\ Permutation l l'
-                 /\ ~ obs_eq (consumer p (classification s) l) (consumer p (classification s) l').
-Proof. exact (unsafe_refuted_gen sites). Qed.
 
 (* ------------------------------------------------------------------------------------------ *)
 (* non-vacuity instances used by Props/C19.v *)
@@ -128,5 +147,7 @@ Proof. vm_compute. repeat split. Qed.
 
 Lemma ex_inventory : (5 <=? Z.of_nat (length sites)) = true
   /\ existsb (fun s => shape_eqb (classification s) CollectHash) sites = true
-  /\ existsb (fun s => shape_eqb (classification s) AnyAll) sites = true.
+  /\ existsb (fun s => shape_eqb (classification s) AnyAll) sites = true
+  /\ existsb (fun s => shape_eqb (classification s) CollectThenSort) sites = true
+  /\ existsb (fun s => shape_eqb (classification s) MinByTotalKey) sites = true.
 Proof. vm_compute. repeat split. Qed.
